@@ -1,2 +1,344 @@
-(* Model for C03 — to be written. Executable definitions only, no proofs. *)
-From WI Require Import Lib.Base Lib.Info.
+(* Model for C03: X.509 certificate description.
+     internal/file/der.go   parseCertificate, getCertificateInfo, x509KeyUsages, x509EKUs
+     internal/file/keys.go  pkixPublicKeyAttributes (the "Public key" child)
+     internal/file/pem.go / parsers.go (PEMFile, JavaKeystore) / jks.go for the presentations
+   crypto/x509.ParseCertificate is NOT modelled at byte level: [x509_spec] states, field by
+   field, what the library yields for a certificate whose ENCODED content is [enc_cert]; the
+   correspondence check validates it on every generated certificate (op x509).
+   names.FromRawDN (subject / issuer text) is an oracle: its output travels in the input.
+   Executable definitions only, no proofs. *)
+From WI Require Import Lib.Base Lib.Info Lib.Time.
+From WI Require gen.CertTables.
+Open Scope N_scope.
+
+Definition oid := list N.
+
+Fixpoint list_eqb {A} (eqb : A -> A -> bool) (a b : list A) : bool :=
+  match a, b with
+  | [], [] => true
+  | x :: a', y :: b' => eqb x y && list_eqb eqb a' b'
+  | _, _ => false
+  end.
+Definition oid_eqb (a b : oid) : bool := list_eqb N.eqb a b.
+
+(* asn1.ObjectIdentifier.String(): decimal arcs joined by "." *)
+Definition dotted (o : oid) : bytes := join [46] (map dec_of_N o).
+
+(* ---------- what is encoded ---------- *)
+(* SubjectPublicKeyInfo, as far as the description depends on it *)
+Inductive spki :=
+| SRsa (modulus : bytes)      (* rsaEncryption, RSAPublicKey.modulus as big-endian octets *)
+| SDsa (p : bytes)            (* id-dsa with parameters p, q, g; p as big-endian octets *)
+| SEc (curve : oid)           (* id-ecPublicKey with namedCurve parameters *)
+| SBare (alg : oid)           (* any other algorithm OID: Ed25519, Ed448, X25519, X448, unknown *)
+| SBad.                       (* not a SubjectPublicKeyInfo the harness could re-read (never generated) *)
+
+(* GeneralName: context tag and content octets (1 rfc822Name, 2 dNSName, 6 URI, 7 iPAddress, others) *)
+Inductive general_name := GN (tag : N) (data : bytes).
+
+(* AlgorithmIdentifier of the signature: one of the identifiers crypto/x509 knows, given by the
+   library's public constant (x509.SHA256WithRSA = 4 ...), or another OID *)
+Inductive sigalg := SigKnown (id : N) | SigUnknown (o : oid).
+
+Record enc_cert := {
+  e_version : N;                          (* 1, 2 or 3 (the encoded INTEGER plus one; absent = 1) *)
+  e_serial : N;
+  e_subject : bytes;                      (* text of the subject RDNSequence (oracle names.FromRawDN) *)
+  e_issuer : bytes;
+  e_not_before : Z;                       (* Unix seconds *)
+  e_not_after : Z;
+  e_spki : spki;
+  e_basic : option (bool * option Z);     (* basicConstraints: cA, pathLenConstraint *)
+  e_key_usage : option (list bool);       (* keyUsage BIT STRING, bit 0 first *)
+  e_ekus : option (list oid);             (* extKeyUsage, in encoded order *)
+  e_sans : option (list general_name);    (* subjectAltName, in encoded order *)
+  e_ski : option bytes;                   (* subjectKeyIdentifier *)
+  e_aki : option bytes;                   (* authorityKeyIdentifier.keyIdentifier *)
+  e_sig : sigalg
+}.
+
+(* ---------- what crypto/x509 hands to getCertificateInfo ---------- *)
+Record cert_fields := {
+  f_version : Z;
+  f_bc_valid : bool;                      (* BasicConstraintsValid *)
+  f_is_ca : bool;
+  f_max_path_len : Z;
+  f_max_path_len_zero : bool;
+  f_serial : Z;
+  f_spki : spki;                          (* RawSubjectPublicKeyInfo *)
+  f_subject : bytes;                      (* names.FromRawDN(RawSubject) *)
+  f_issuer : bytes;
+  f_ski : bytes;
+  f_aki : bytes;
+  f_not_before : Z;
+  f_not_after : Z;
+  f_key_usage : N;
+  f_ext_key_usage : list N;
+  f_unknown_eku : list oid;
+  f_dns : list bytes;
+  f_ips : list bytes;                     (* net.IP: 4 or 16 octets *)
+  f_uris : list bytes;                    (* url.URL.String() *)
+  f_emails : list bytes;
+  f_sigalg : N;                           (* SignatureAlgorithm; 0 = unknown to the library *)
+  f_sig_oid : oid                         (* algorithm OID of the outer AlgorithmIdentifier in Raw
+                                             (read by certSignatureAlgorithm when f_sigalg = 0) *)
+}.
+
+(* ---------- x509_spec: the assumed behaviour of crypto/x509.ParseCertificate (go1.23.5) ---------- *)
+(* parseKeyUsageExtension: bits 0..8 of the bit string; bit i has value 1<<i *)
+Fixpoint ku_mask_from (i : nat) (bits : list bool) : N :=
+  match bits with
+  | [] => 0
+  | b :: r => if Nat.ltb i 9 then (if b then 2 ^ N.of_nat i else 0) + ku_mask_from (S i) r else 0
+  end.
+Definition ku_mask (bits : list bool) : N := ku_mask_from 0 bits.
+
+(* extKeyUsageFromOID *)
+Fixpoint eku_id_in (t : list (N * list N * bytes)) (o : oid) : option N :=
+  match t with
+  | [] => None
+  | (id, o', _) :: r => if oid_eqb o o' then Some id else eku_id_in r o
+  end.
+Definition eku_id (o : oid) : option N := eku_id_in gen.CertTables.eku_table o.
+
+(* parseExtKeyUsageExtension: known usages and unknown OIDs go to two lists, each in encoded order *)
+Definition known_ekus (l : list oid) : list N :=
+  flat_map (fun o => match eku_id o with Some id => [id] | None => [] end) l.
+Definition unknown_ekus (l : list oid) : list oid :=
+  filter (fun o => match eku_id o with Some _ => false | None => true end) l.
+
+(* parseSANExtension: four lists by kind, each in encoded order; other kinds are dropped *)
+Definition sans_of_tag (t : N) (l : list general_name) : list bytes :=
+  flat_map (fun g => match g with GN t' d => if t' =? t then [d] else [] end) l.
+
+Definition opt_list {A} (o : option (list A)) : list A := match o with Some l => l | None => [] end.
+Definition opt_bytes (o : option bytes) : bytes := match o with Some l => l | None => [] end.
+
+Definition x509_spec (c : enc_cert) : cert_fields :=
+  let v3 := e_version c =? 3 in            (* extensions are only read in version 3 certificates *)
+  let basic := if v3 then e_basic c else None in
+  let sans := if v3 then opt_list (e_sans c) else [] in
+  let ekus := if v3 then opt_list (e_ekus c) else [] in
+  (* parseBasicConstraintsExtension: maxPathLen = -1 unless encoded; MaxPathLenZero = (MaxPathLen == 0) *)
+  let mpl := match basic with Some (_, Some n) => n | Some (_, None) => (-1)%Z | None => 0%Z end in
+  {| f_version := Z.of_N (e_version c);
+     f_bc_valid := match basic with Some _ => true | None => false end;
+     f_is_ca := match basic with Some (ca, _) => ca | None => false end;
+     f_max_path_len := mpl;
+     f_max_path_len_zero := match basic with Some _ => (mpl =? 0)%Z | None => false end;
+     f_serial := Z.of_N (e_serial c);
+     f_spki := e_spki c;
+     f_subject := e_subject c;
+     f_issuer := e_issuer c;
+     f_ski := if v3 then opt_bytes (e_ski c) else [];
+     f_aki := if v3 then opt_bytes (e_aki c) else [];
+     f_not_before := e_not_before c;
+     f_not_after := e_not_after c;
+     f_key_usage := if v3 then match e_key_usage c with Some bits => ku_mask bits | None => 0 end else 0;
+     f_ext_key_usage := known_ekus ekus;
+     f_unknown_eku := unknown_ekus ekus;
+     f_dns := sans_of_tag 2 sans;
+     f_ips := sans_of_tag 7 sans;
+     f_uris := sans_of_tag 6 sans;       (* url.Parse then String(): the encoded text, for the URIs generated *)
+     f_emails := sans_of_tag 1 sans;
+     f_sigalg := match e_sig c with SigKnown id => id | SigUnknown _ => 0 end;
+     f_sig_oid := match e_sig c with SigKnown _ => [] | SigUnknown o => o end |}.
+
+(* ---------- internal/file/der.go ---------- *)
+(* x509KeyUsages (der.go:124-132): the table in slice order; `ku&u.usage == u.usage` *)
+Definition usages_of (table : list (N * bytes)) (ku : N) : list bytes :=
+  map snd (filter (fun e => N.land ku (fst e) =? fst e) table).
+Definition key_usages (ku : N) : list bytes := usages_of gen.CertTables.key_usage_table ku.
+
+(* x509EKUs (der.go:152-178): m[u] for the known ones (a missing key gives ""), then o.String() *)
+Fixpoint eku_name_in (t : list (N * list N * bytes)) (id : N) : bytes :=
+  match t with
+  | [] => []
+  | (id', _, n) :: r => if id =? id' then n else eku_name_in r id
+  end.
+Definition eku_name (id : N) : bytes := eku_name_in gen.CertTables.eku_table id.
+Definition x509_ekus (known : list N) (unknown : list oid) : list bytes :=
+  map eku_name known ++ map dotted unknown.
+
+(* x509.SignatureAlgorithm.String(): the library's name, or the decimal value *)
+Fixpoint assoc_N {A} (t : list (N * A)) (k : N) : option A :=
+  match t with
+  | [] => None
+  | (k', v) :: r => if k =? k' then Some v else assoc_N r k
+  end.
+Definition sigalg_string (id : N) : bytes :=
+  match assoc_N gen.CertTables.sigalg_names id with Some n => n | None => dec_of_N id end.
+
+(* net.IP.String() *)
+Definition ipv4_string (b : bytes) : bytes := join [46] (map dec_of_N b).
+Definition is_v4_mapped (b : bytes) : bool :=       (* IP.To4 on 16 octets: ten zero octets, ff ff *)
+  bytes_eqb (take 12 b) [0; 0; 0; 0; 0; 0; 0; 0; 0; 0; 255; 255].
+Fixpoint groups16 (b : bytes) : list N :=
+  match b with
+  | h :: l :: r => (h * 256 + l) :: groups16 r
+  | _ => []
+  end.
+(* appendHex: lower case, no leading zeros *)
+Definition hex_group (x : N) : bytes :=
+  (if 4096 <=? x then [hex_digit false (x / 4096)] else []) ++
+  (if 256 <=? x then [hex_digit false ((x / 256) mod 16)] else []) ++
+  (if 16 <=? x then [hex_digit false ((x / 16) mod 16)] else []) ++
+  [hex_digit false (x mod 16)].
+(* length of the run of zero groups at the head of l *)
+Fixpoint zero_run (l : list N) : nat :=
+  match l with
+  | 0 :: r => S (zero_run r)
+  | _ => O
+  end.
+(* netip.Addr.appendTo6, first loop: the leftmost longest run of >= 2 zero groups, as (start, length) *)
+Fixpoint best_run (i : nat) (l : list N) (best : nat * nat) : nat * nat :=
+  match l with
+  | [] => best
+  | _ :: r =>
+      let n := zero_run l in
+      best_run (S i) r (if Nat.leb 2 n && Nat.ltb (snd best) n then (i, n) else best)
+  end.
+(* second loop *)
+Fixpoint v6_emit (fuel : nat) (i : nat) (l : list N) (zs zn : nat) : bytes :=
+  match fuel with
+  | O => []
+  | S f =>
+      match l with
+      | [] => []
+      | g :: r =>
+          if Nat.ltb 0 zn && Nat.eqb i zs then
+            [58; 58] ++ match drop zn l with
+                        | [] => []
+                        | g' :: r' => hex_group g' ++ v6_emit f (i + zn + 1) r' zs zn
+                        end
+          else (if Nat.ltb 0 i then [58] else []) ++ hex_group g ++ v6_emit f (S i) r zs zn
+      end
+  end.
+Definition ipv6_string (b : bytes) : bytes :=
+  let gs := groups16 b in
+  match best_run 0 gs (0%nat, 0%nat) with
+  | (zs, zn) => v6_emit 9 0 gs zs zn
+  end.
+Definition ip_string (b : bytes) : bytes :=
+  match length b with
+  | 0%nat => bs "<nil>"
+  | 4%nat => ipv4_string b
+  | 16%nat => if is_v4_mapped b then ipv4_string (drop 12 b) else ipv6_string b
+  | _ => 63 :: hex_of false b
+  end.
+(* netip.Addr.String() of a 16-octet address: Is4In6 -> "::ffff:" + dotted quad, else appendTo6 *)
+Definition netip16_string (b : bytes) : bytes :=
+  if is_v4_mapped b then bs "::ffff:" ++ ipv4_string (drop 12 b) else ipv6_string b.
+(* sanIPString (der.go): 16 octets through net/netip, anything else through net.IP.String *)
+Definition san_ip_string (b : bytes) : bytes :=
+  if Nat.eqb (length b) 16 then netip16_string b else ip_string b.
+
+(* ---------- internal/file/keys.go: pkixPublicKeyAttributes (keys.go:45-84) ---------- *)
+Fixpoint assoc_oid {A} (t : list (oid * A)) (o : oid) : option A :=
+  match t with
+  | [] => None
+  | (o', v) :: r => if oid_eqb o o' then Some v else assoc_oid r o
+  end.
+(* big.Int.BitLen of the integer with the given big-endian magnitude *)
+Fixpoint strip_zeros (b : bytes) : bytes :=
+  match b with
+  | 0 :: r => strip_zeros r
+  | _ => b
+  end.
+Definition bitlen_be (b : bytes) : N :=
+  match strip_zeros b with
+  | [] => 0
+  | h :: r => 8 * N.of_nat (length r) + N.size h
+  end.
+Definition bits_attr (n : bytes) : bytes * bytes := (bs "Size", dec_of_N (bitlen_be n) ++ bs " bits").
+(* names.CurveNameFromOID *)
+Definition curve_name (o : oid) : bytes :=
+  match assoc_oid gen.CertTables.curve_names o with Some n => n | None => dotted o end.
+Definition pkix_public_key_attributes (k : spki) : list (bytes * bytes) :=
+  match k with
+  | SDsa p => [(bs "Algorithm", gen.CertTables.alg_dsa); bits_attr p]
+  | SRsa n => [(bs "Algorithm", gen.CertTables.alg_rsa); bits_attr n]
+  | SEc c => [(bs "Algorithm", gen.CertTables.alg_ecdsa); (bs "Curve", curve_name c)]
+  | SBare o => match assoc_oid gen.CertTables.bare_key_attrs o with Some a => a | None => [] end
+  | SBad => []
+  end.
+
+(* ---------- getCertificateInfo (der.go) ---------- *)
+Definition comma_join (l : list bytes) : bytes := join [44; 32] l.      (* strings.Join(_, ", ") *)
+
+(* The three repairs made for C03 are switches, so that the pre-repair code stays available
+   to the refutation theorems:
+   v_pathlen  "Max path length" printed iff MaxPathLen > 0 || (MaxPathLen == 0 && MaxPathLenZero)
+              (before: MaxPathLen != 0 || MaxPathLenZero, true for the library's -1 = absent: F12)
+   v_sigoid   an algorithm unknown to the library is shown by its OID (before: the library's "0")
+   v_ip16     16-octet iPAddress names are formatted by net/netip (before: net.IP.String, which
+              prints an IPv4-mapped address as the IPv4 address) *)
+Record variant := { v_pathlen : bool; v_sigoid : bool; v_ip16 : bool }.
+Definition current : variant := {| v_pathlen := true; v_sigoid := true; v_ip16 := true |}.
+Definition pre_F12 : variant := {| v_pathlen := false; v_sigoid := true; v_ip16 := true |}.
+Definition pre_sigoid : variant := {| v_pathlen := true; v_sigoid := false; v_ip16 := true |}.
+Definition pre_ip16 : variant := {| v_pathlen := true; v_sigoid := true; v_ip16 := false |}.
+
+Definition show_path_len (v : variant) (f : cert_fields) : bool :=
+  f_bc_valid f && f_is_ca f &&
+  (if v_pathlen v then (0 <? f_max_path_len f)%Z || ((f_max_path_len f =? 0)%Z && f_max_path_len_zero f)
+   else negb (f_max_path_len f =? 0)%Z || f_max_path_len_zero f).
+
+(* certSignatureAlgorithm (der.go).  The branch "c.Raw does not unmarshal" is unreachable for a
+   certificate the library parsed and is not represented. *)
+Definition cert_signature_algorithm (v : variant) (f : cert_fields) : bytes :=
+  if v_sigoid v && (f_sigalg f =? 0) then dotted (f_sig_oid f) else sigalg_string (f_sigalg f).
+
+Definition date_string (sec : Z) : bytes := fmt_date (civil_of_unix sec 0).   (* UTC, layout 2006-01-02 *)
+
+Definition description (f : cert_fields) : bytes :=
+  bs "x.509v" ++ dec_of_Z (f_version f) ++
+  (if f_bc_valid f then (if f_is_ca f then bs " CA" else bs " end-entity") else []) ++
+  bs " certificate".
+
+Definition san_strings (v : variant) (f : cert_fields) : list bytes :=
+  f_dns f ++ map (if v_ip16 v then san_ip_string else ip_string) (f_ips f) ++ f_uris f ++ f_emails f.
+
+Definition describe_gen (v : variant) (f : cert_fields) : info :=
+  let sans := san_strings v f in
+  Info (description f)
+    ([(bs "Serial", dec_of_Z (f_serial f));
+      (bs "Subject", f_subject f)] ++
+     (match f_ski f with [] => [] | k => [(bs "Subject key id", hex_of false k)] end) ++
+     [(bs "Issuer", f_issuer f)] ++
+     (match f_aki f with [] => [] | k => [(bs "Authority key id", hex_of false k)] end) ++
+     [(bs "Not before", date_string (f_not_before f));
+      (bs "Not after", date_string (f_not_after f));
+      (bs "Key usage", comma_join (key_usages (f_key_usage f)));
+      (bs "Extended key usage", comma_join (x509_ekus (f_ext_key_usage f) (f_unknown_eku f)))] ++
+     (if show_path_len v f then [(bs "Max path length", dec_of_Z (f_max_path_len f))] else []) ++
+     (match sans with [] => [] | _ => [(bs "SANs", comma_join sans)] end) ++
+     [(bs "Signature algorithm", cert_signature_algorithm v f)])
+    [Info (bs "Public key") (pkix_public_key_attributes (f_spki f)) []].
+
+(* the code as it is now *)
+Definition describe (f : cert_fields) : info := describe_gen current f.
+
+(* parseCertificate (der.go:41-47) under the library's recorded answer *)
+Definition parse_certificate (lib : result cert_fields) : result info :=
+  let* f := lib in Ok (describe f).
+
+(* ---------- presentations ---------- *)
+(* PEMFile (parsers.go:90-125) on a text whose PEM blocks are exactly the given certificates;
+   ASN1File / Base64ASN1File on one certificate *)
+Definition present_pem (certs : list info) : result info :=
+  match certs with
+  | [] => Err "no valid PEM blocks"
+  | [i] => Ok i
+  | _ => Ok (Info (bs "multiple PEM blocks") [] certs)
+  end.
+(* JavaKeystore + parseJKSEntry (jks.go) on trustedCertEntry entries (alias, date in ms, one X.509 certificate) *)
+Definition jks_entry (alias : bytes) (millis : Z) (cert : info) : info :=
+  Info (alias ++ bs " (trustedCertEntry)") [(bs "Date", fmt_rfc3339 (millis / 1000) 0)] [cert].
+Fixpoint jks_entries (extras : list (bytes * Z)) (certs : list info) : list info :=
+  match extras, certs with
+  | (a, ms) :: er, c :: cr => jks_entry a ms c :: jks_entries er cr
+  | _, _ => []
+  end.
+Definition present_jks (extras : list (bytes * Z)) (certs : list info) : info :=
+  Info (bs "Java Keystore (JKS)") [] (jks_entries extras certs).
